@@ -15,8 +15,8 @@ META = dict(
     bounds=dict(quick='per-operation contracts from an ARBITRARY scheduler state (all item contents arbitrary, ring position symbolic 0..24, fill level of the addressed bucket symbolic 0..8): tdma_schedule with symbolic offset 0..255/params/int16 priority; '
                       'tdma_schedule_set for every set shape of <= 3 frames x <= 2 items with symbolic item fields and symbolic fill levels at ring position/offset pairs {(0,0),(23,1),(24,0),(22,3),(5,24),(24,26)}; advance; reset; execute with ring position in {0, 24} and each fill level 0..4, all priorities symbolic int16 and all parameters symbolic; 3-operation runs schedule(N)->N x advance->execute for N in {0,1,24}',
                 thorough='execute with fill levels 0..4 at every ring position and 5 at positions 0 and 24; sets of <= 3 frames x <= 3 items'),
-    stubs=['item callbacks: a recording stub returning an arbitrary rc >= 0 (the property speaks of callbacks that report success) and not re-entering the scheduler', 'puts/printf/putchar: empty', 'struct l1s_state object with compiler-computed offsets'],
-    outside=['callbacks that schedule further items while executing', 'FIQ/IRQ preemption of the scheduler', 'ARM code generation (host-triple IR of the same source)'],
+    stubs=['item callbacks: a recording stub returning an arbitrary rc >= 0 (the property speaks of callbacks that report success) and not re-entering the scheduler (except in execute.reentrant: a callback that schedules one item for the current frame)', 'puts/printf/putchar: empty', 'struct l1s_state object with compiler-computed offsets'],
+    outside=['callbacks that schedule further items while executing, other than one item for the current frame', 'FIQ/IRQ preemption of the scheduler', 'ARM code generation (host-triple IR of the same source)'],
     assumptions=['abstract ring A[k] = bucket[(cur+k) mod 25]; "an item scheduled N frames ahead runs exactly once, exactly N advances later" follows from the contracts by induction on the history: schedule adds to A[N] only, advance shifts A by one, execute runs and empties A[0] only, reset empties A[1..24]'],
     explanation='each operation is executed symbolically from LLVM IR on an arbitrary pre-state; post-state cells are compared with the contract for all values; memory obligations on every access')
 
